@@ -89,7 +89,8 @@ def _pair(spec, u, v, theta, n, d):
         a = math.exp(theta[0])
         al = math.exp(theta[1])
         s = sum(((u[i] - v[i]) / math.exp(theta[2 + i])) ** 2 for i in range(d))
-        return a * a * (1.0 + s / (2.0 * al)) ** (-al)
+        # (written with log1p: the power form (1 + s/2al)**(-al) loses al*eps of its value - it is what the library used)
+        return a * a * math.exp(-al * math.log1p(s / (2.0 * al)))
     if k in ("White", "Hetero"):
         return 0.0
     if k == "Sum":
